@@ -49,13 +49,19 @@ deriving Repr
 
 /-- is the call inside the documented contract, in this abstract state? -/
 def Contract (q : Q α) : Op α → Bool
-  | .malloc _ _ | .writeBinary _ _ | .writeByte _ => !q.dead && !q.readOnly && !q.booked
-  | .writeDirect _ _ remain =>
-    !q.dead && !q.readOnly && !q.booked && !q.binSinceFlush && decide (remain ≤ (q.mallocLen : Int))
+  -- `d` is what the caller writes into the slice `Malloc(n)` returned: it has that length
+  | .malloc n d => !q.dead && !q.readOnly && !q.booked && decide (d.length = n.toNat)
+  -- `pcap` is `cap(p)` of a Go slice: never below `len(p)`
+  | .writeBinary p pcap => !q.dead && !q.readOnly && !q.booked && decide (p.length ≤ pcap)
+  | .writeByte _ => !q.dead && !q.readOnly && !q.booked
+  | .writeDirect p pcap remain =>
+    !q.dead && !q.readOnly && !q.booked && !q.binSinceFlush && decide (remain ≤ (q.mallocLen : Int)) &&
+    decide (p.length ≤ pcap)
   | .mallocAck n => !q.dead && !q.readOnly && !q.booked && !q.appSinceFlush && decide (n ≤ (q.mallocLen : Int))
   | .flush => !q.dead && !q.readOnly
+  -- "you must actively submit before read the data" (Append): no read between Append and Flush
   | .next _ | .peek _ | .skip _ | .readBinary _ | .readByte | .until _ | .readCopy _ | .indexByte _ _ =>
-    !q.dead && q.readOK
+    !q.dead && q.readOK && !q.appSinceFlush
   | .release | .close | .len | .mallocLen => !q.dead
   | .bytes | .getBytes _ => !q.dead && !q.readOnly && !q.appSinceFlush && q.readOK
   | .bookAck _ _ _ | .resetTail _ | .calcMaxSize =>
@@ -130,7 +136,7 @@ def specSlice (q : Q α) (n : Int) : Q α × Option (Q α) × Expect α :=
   else ({ q with items := q.items.drop n.toNat },
         some { items := q.items.take n.toNat, readOnly := true }, .exact .unit)
 
-def sliceContract (q : Q α) : Bool := !q.dead && q.readOK
+def sliceContract (q : Q α) : Bool := !q.dead && q.readOK && !q.appSinceFlush
 
 /-- Append(donor): (b, donor) -/
 def specAppend (q d : Q α) : Q α × Q α :=
